@@ -386,7 +386,10 @@ func (e *Env) ident(name string) Term {
 					fe.declConst(n, k)
 					if !fe.cvSeen[n] {
 						fe.cvSeen[n] = true
+						g := fe.curGuard
+						fe.curGuard = ""
 						fe.assumeTypeInv(n, pt.Elem())
+						fe.curGuard = g
 					}
 					return Term{n, k, pt.Elem()}
 				}
